@@ -4,8 +4,11 @@ package main
 // list of positions found in the error text.
 
 import (
+	"encoding/json"
 	"fmt"
+	"os"
 	"regexp"
+	"strconv"
 	"strings"
 
 	"github.com/openconfig/goyang/pkg/yang"
@@ -72,3 +75,73 @@ func init() {
 		return b.String()
 	}
 }
+
+// C16 (third sentence): modules found BY NAME in the current directory.
+//   cwdload <ops> <n> (<filenamehex> <texthex>){n}
+//     ops, comma separated: W<i> write text i as file i into a fresh, empty working directory; L<i> Modules.Parse(text i, name i);
+//     R<hex> Modules.Read(name); G<hex> Modules.GetModule(name); P Process
+//   output: JSON {"loads":[...], "errors":[...]} (error strings in full)
+func init() {
+	handlers["cwdload"] = func(toks []string) string {
+		ops := toks[0]
+		n, _ := strconv.Atoi(toks[1])
+		names := make([]string, n)
+		texts := make([]string, n)
+		for i := 0; i < n; i++ {
+			names[i] = string(unhex(toks[2+2*i]))
+			texts[i] = string(unhex(toks[3+2*i]))
+		}
+		old, err := os.Getwd()
+		if err != nil {
+			return "BROKEN getwd: " + err.Error()
+		}
+		dir, err := os.MkdirTemp("", "verifcwd")
+		if err != nil {
+			return "BROKEN tempdir: " + err.Error()
+		}
+		defer os.RemoveAll(dir)
+		if err := os.Chdir(dir); err != nil {
+			return "BROKEN chdir: " + err.Error()
+		}
+		defer os.Chdir(old)
+		ms := yang.NewModules()
+		loads := []string{}
+		errors := []string{}
+		note := func(err error) {
+			if err != nil {
+				loads = append(loads, "err: "+err.Error())
+			} else {
+				loads = append(loads, "ok")
+			}
+		}
+		for _, op := range strings.Split(ops, ",") {
+			switch {
+			case op == "P":
+				for _, e := range ms.Process() {
+					errors = append(errors, e.Error())
+				}
+			case strings.HasPrefix(op, "W"):
+				i, _ := strconv.Atoi(op[1:])
+				if err := os.WriteFile(names[i], []byte(texts[i]), 0o644); err != nil {
+					return "BROKEN write: " + err.Error()
+				}
+			case strings.HasPrefix(op, "L"):
+				i, _ := strconv.Atoi(op[1:])
+				note(ms.Parse(texts[i], names[i]))
+			case strings.HasPrefix(op, "R"):
+				note(ms.Read(string(unhex(op[1:]))))
+			case strings.HasPrefix(op, "G"):
+				_, errs := ms.GetModule(string(unhex(op[1:])))
+				if len(errs) == 0 {
+					loads = append(loads, "ok")
+				}
+				for _, e := range errs {
+					loads = append(loads, "err: "+e.Error())
+				}
+			}
+		}
+		b, _ := json.Marshal(map[string][]string{"loads": loads, "errors": errors})
+		return string(b)
+	}
+}
+
